@@ -190,6 +190,34 @@ def run(ctx) -> None:
     it_txt = unparse(l2[0].iter)
     ctx.check("R3", it_txt in (f"enumerate({ifp.params[0]})",), f"{ifp.name}: loop over enumerate({ifp.params[0]}) (every line, zero based)",
               f"parse.{ifp.name}: not every line is searched", f"`for ... in {it_txt}`", loc=ifp.loc(l2[0]))
+    # helper form: a line yields a match iff the search found something non-empty (an empty match would splice the new
+    # version in at a position that matched nothing; dropping one-character matches would leave them stale)
+    if not merged:
+        iys = [n for n in ast.walk(ifp.node) if isinstance(n, ast.Yield)]
+        ctx.require(len(iys) == 1, "parse._iter_for_pattern yield count changed")
+        icfg_ = cfgs.get(ifp.fq)
+        ipc_ = PathCond(icfg_)
+        yc = ipc_.reach(icfg_.node_containing(iys[0])).drop_unused()
+        svars = {unparse(tg) for _s, tg, v in shapes.iter_assigns(ifp.node) if isinstance(v, ast.Call) and isinstance(v.func, ast.Attribute) and v.func.attr == "search"}
+        found_atoms = [a for a in yc.atoms if a in svars]
+        def _inl(a_: str) -> str:
+            e_ = ast.parse(a_, mode="eval").body
+            if isinstance(e_, ast.Name) and e_.id in svars:
+                return a_
+            # inline locals but keep the search variable itself
+            import copy as _cp
+            defs_ = {unparse(tg): v for _s, tg, v in shapes.iter_assigns(ifp.node) if isinstance(tg, ast.Name) and unparse(tg) not in svars}
+
+            class _T(ast.NodeTransformer):
+                def visit_Name(self, n_: ast.Name) -> ast.AST:
+                    return _cp.deepcopy(defs_[n_.id]) if n_.id in defs_ and isinstance(n_.ctx, ast.Load) else n_
+            return unparse(_T().visit(e_)).replace(" ", "")
+        nonempty_atoms = [a for a in yc.atoms if a not in svars and any(_inl(a) in (f"{v_}.group(0)", f"{v_}.group()", f"{v_}[0]", f"{v_}.end()>{v_}.start()", f"{v_}.start()<{v_}.end()",
+                                                                               f"{v_}.start()!={v_}.end()") for v_ in svars)]
+        ok = len(found_atoms) == 1 and len(nonempty_atoms) == 1 and yc.equiv(BF.var(found_atoms[0]) & BF.var(nonempty_atoms[0]))
+        ctx.check("R3", ok, "_iter_for_pattern yields a line's match iff the search found a non-empty text",
+                  "parse._iter_for_pattern: matches are dropped (or empty matches kept) by the per-line test",
+                  f"yields when {yc.to_dnf()}; required: <search result> & <matched text non-empty>: e.g. with `> 1` a one-character occurrence (MAJOR `1`) is never rewritten", loc=ifp.loc(iys[0]))
     # yield only suppressed by overlap
     ys = [n for n in ast.walk(inner) if isinstance(n, ast.Yield)]
     ctx.require(len(ys) == 1, "iter_matches yield count changed")
@@ -349,6 +377,42 @@ def run(ctx) -> None:
     # section headers: only exact bumpver/pycalver headers switch the section flag on
     dcfg = cfgs.get(dp.fq)
     dpc = PathCond(dcfg)
+    # the line is taken only inside the section: return <=> flag and the line starts with `current_version`
+    flag_names = {unparse(t_) for n_ in dcfg.nodes if n_.kind == "stmt" and isinstance(n_.ast, ast.Assign) and isinstance(n_.ast.value, ast.Constant) and isinstance(n_.ast.value.value, bool)
+                  for t_ in n_.ast.targets}
+    for r in rets:
+        rc = dpc.reach(dcfg.node_containing(r.value) if r.value is not None else dcfg.nodes_of(r)[0]).drop_unused()
+        fl = [a for a in rc.atoms if a in flag_names]
+        st = [a for a in rc.atoms if "startswith('current_version" in a.replace('"', "'")]
+        ok = len(fl) == 1 and len(st) == 1 and rc.project(fl + st).equiv(BF.var(fl[0]) & BF.var(st[0]))
+        ctx.check("R5", ok, "self-pattern parser: the current_version line is taken only inside a bumpver section",
+                  "config._parse_current_version_default_pattern: a current_version line outside the bumpver section can be taken as the self pattern",
+                  f"returns when {rc.to_dnf()}; required: <in section> & <line starts with current_version>", loc=dp.loc(r), witness={"file": "[metadata]\ncurrent_version = 0.1\n[bumpver]\ncurrent_version = 1.2.3"})
+    # ... and any other section header ends the section: the flag is cleared exactly for a non-empty line that starts with '[' and ends with ']'
+    off = [n for n in dcfg.nodes if n.kind == "stmt" and isinstance(n.ast, ast.Assign) and isinstance(n.ast.value, ast.Constant) and n.ast.value.value is False and n.id in dcfg.reachable()
+           and any(unparse(t_) in flag_names for t_ in n.ast.targets) and shapes.enclosing_loops(dp, n.ast)]
+    ctx.floor("R5", "section-end assignments in the self-pattern parser", len(off), 1)
+    for n in off:
+        ro = dpc.reach(n.id).drop_unused()
+        lv = None
+        for lp_ in shapes.enclosing_loops(dp, n.ast):
+            if isinstance(lp_, ast.For) and isinstance(lp_.target, ast.Name):
+                lv = lp_.target.id
+        opens = [a for a in ro.atoms if a.replace('"', "'") in (f"{lv}[0] == '['", f"{lv}.startswith('[')", f"{lv}.strip().startswith('[')", f"{lv}.strip()[0] == '['")]
+        closes = [a for a in ro.atoms if a.replace('"', "'") in (f"{lv}[-1] == ']'", f"{lv}.endswith(']')", f"{lv}.strip().endswith(']')", f"{lv}.strip()[-1] == ']'")]
+        nonempty = [a for a in ro.atoms if a in (lv, f"{lv}.strip()")]
+        ok = len(opens) == 1 and len(closes) == 1
+        if ok:
+            want = BF.var(opens[0]) & BF.var(closes[0])
+            keep = [opens[0], closes[0]]
+            if nonempty and not opens[0].endswith("startswith('[')"):
+                want = want & BF.var(nonempty[0])
+                keep.append(nonempty[0])
+            ok = ro.project(keep).equiv(want)
+        ctx.check("R5", ok, "self-pattern parser: the section ends at the next `[...]` header line",
+                  "config._parse_current_version_default_pattern: the end of the bumpver section is not recognised by a `[...]` header line",
+                  f"the section flag is cleared when {ro.to_dnf()}; required: the line is non-empty, starts with '[' and ends with ']' (and is not a bumpver header): otherwise a "
+                  f"current_version line of a later section is taken as the config's own pattern", loc=dp.loc(n.ast))
     on = [n for n in dcfg.nodes if n.kind == "stmt" and isinstance(n.ast, ast.Assign) and isinstance(n.ast.value, ast.Constant) and n.ast.value.value is True and n.id in dcfg.reachable()]
     ctx.floor("R5", "section-start assignments in the self-pattern parser", len(on), 1)
     headers = set()
